@@ -22,15 +22,73 @@ def cases(tier, seed):
         yield cid, {"specs": specs, "tier": tier}
     for i, seq in enumerate(C.mixing_sequences()):
         yield f"C04|mixing|{i:02d}|{seq[0][0]}", {"specs": seq, "tier": tier}
+    # block-count arithmetic: EVERY (n, k) with k < n <= 64 [96] x b = 1..8 concatenated blocks (shapes only depend on n, k, b)
+    for n in range(2, 65 if tier == "quick" else 97):
+        yield f"C04|dims|n={n:02d}", {"dims_n": n, "tier": tier}
 
 
 def component_of(p):
-    return p["specs"][0][0]
+    return "dims" if "dims_n" in p else p["specs"][0][0]
 
 
 def execute(p, res):
+    if "dims_n" in p:
+        return dims_case(p, res)
     for spec in p["specs"]:
         check(spec, p["tier"], res)
+
+
+def dims_case(p, res):
+    """for one length n and every dimension k < n: a systematic code (its own class), the same code as a plain generator matrix (the generic
+    class), plus repetition / single-parity-check codes of that length; three messages per layout, b = 1..8 blocks per row, rows 1 and 3:
+    encode has b*n columns, inverse_encode / extract_message give the messages back"""
+    import torch
+    from kaira.models.fec import encoders as E
+    n = p["dims_n"]
+    for k in range(1, n):
+        P = [[1 if (i * j + i + 2 * j) % 3 == 0 or j == (i % (n - k)) else 0 for j in range(n - k)] for i in range(k)]
+        G = [[1 if i == j else 0 for j in range(k)] + P[i] for i in range(k)]
+        encs = [("systematic", lambda: E.SystematicLinearBlockCodeEncoder(parity_submatrix=torch.tensor(P, dtype=torch.float32)))]
+        if k % 3 == 1 or n <= 24:
+            encs.append(("generic", lambda: E.LinearBlockCodeEncoder(torch.tensor(G, dtype=torch.float32))))
+        if k == 1:
+            encs.append(("repetition", lambda: E.RepetitionCodeEncoder(n)))
+        if k == n - 1:
+            encs.append(("spc", lambda: E.SingleParityCheckCodeEncoder(k)))
+        for fam, mk in encs:
+            cfg = f"{fam},n={n},k={k}"
+            try:
+                enc = mk()
+            except Exception as e:  # noqa: BLE001
+                res.viol("dims", cfg, "raises", f"constructor: {type(e).__name__}: {str(e)[:160]}")
+                continue
+            for b in range(1, 9):
+                for rows in (1, 3):
+                    m = torch.tensor([[(r + c * (r + 1) + (c // k)) % 2 for c in range(b * k)] for r in range(rows)], dtype=torch.float32)
+                    for lay in ("2d", "1d") if rows == 1 else ("2d",):
+                        x = m if lay == "2d" else m[0]
+                        try:
+                            cw = enc(x)
+                            back = enc.inverse_encode(cw)
+                            back = back[0] if isinstance(back, tuple) else back
+                            ext = enc.extract_message(cw) if hasattr(enc, "extract_message") else back
+                        except Exception as e:  # noqa: BLE001
+                            res.viol("dims", cfg, "raises", f"b={b} blocks, message shape {tuple(x.shape)}: {type(e).__name__}: {str(e)[:160]}", {"b": b})
+                            break
+                        res.ev(1, nontrivial=1, transitions=3)
+                        if tuple(cw.shape) != tuple(x.shape[:-1]) + (b * n,):
+                            res.viol("dims", cfg, "identity", f"b={b}: message shape {tuple(x.shape)} encoded to {tuple(cw.shape)}, expected last dimension {b * n}", {"b": b})
+                            break
+                        if tuple(back.shape) != tuple(x.shape) or not torch.equal(back.to(torch.float32), x) or tuple(ext.shape) != tuple(x.shape) or not torch.equal(ext.to(torch.float32), x):
+                            res.viol("dims", cfg, "identity", f"b={b}, message shape {tuple(x.shape)}: inverse_encode -> {tuple(back.shape)}, extract_message -> {tuple(ext.shape)}; not the messages", {"b": b})
+                            break
+                    else:
+                        continue
+                    break
+                else:
+                    continue
+                break
+    res.sample({"n": n, "dimensions": n - 1, "blocks": "1..8"})
 
 
 def _layouts(N, k, tier):
